@@ -70,6 +70,27 @@ def corpus():
     P["invariant-while-sub-runs-under-try"] = prog(
         {"Sub": [("loop", [T("s")])], "Top": dict(pre=[], inv=["inv"], body=[("try", [("do", "Sub", None)], [("c", [T("h")])])])},
         conds=["inv", "c"])
+    # plain break / continue of a loop that sits inside an interrupt block, after a nested try-interrupt
+    for kw in ("break", "continue"):
+        P[f"loop-{kw}-after-nested-try-in-body"] = prog(
+            {"Top": [("try", [("loop", [("try", [T("b1")], [("ci", [T("ih")])]), ("if", "cb", [(kw,)]), T("tail")]),
+                              ("loop", [T("rest")])],
+                      [("co", [T("oh")])])]}, conds=["ci", "cb", "co"])
+        P[f"loop-{kw}-after-nested-try-in-handler"] = prog(
+            {"Top": [("try", [("loop", [T("body")])],
+                      [("co", [("repeat", 2, [("try", [T("hb")], [("ci", [T("ih")])]), ("if", "cb", [(kw,)]), T("htail")]),
+                               T("hend")])])]}, conds=["ci", "cb", "co"])
+    # abandoned sub-behaviours are stopped: the same behaviour object can be invoked again
+    P["abandoned-sub-object-reinvoked-after-abort"] = prog(
+        {"Sub": [T("s1"), T("s2"), T("s3")],
+         "Top": [("newobj", "Sub"), ("loop", [("try", [("doobj", "Sub"), T("after-sub")], [("c", [T("h"), ("abort",)])])])]}, conds=["c"])
+    P["abandoned-nested-subs-reinvoked-after-break"] = prog(
+        {"Leaf": [("loop", [T("leaf")])], "Mid": [("newobj", "Leaf"), T("mid"), ("doobj", "Leaf")],
+         "Top": [("newobj", "Mid"), ("repeat", 3, [("loop", [("try", [("doobj", "Mid")], [("c", [T("h"), ("break",)])])])]),
+                 ("loop", [T("end")])]}, conds=["c"])
+    P["sub-object-reinvoked-after-do-until"] = prog(
+        {"Sub": [("loop", [T("s1"), T("s2")])],
+         "Top": [("newobj", "Sub"), ("loop", [("do", "Sub", ("until", "c")), T("between")])]}, conds=["c"])
     return P
 
 
@@ -80,23 +101,42 @@ def compiled(name, P):
     if name not in _COMPILED:
         import scenic
 
-        _COMPILED[name] = scenic.scenarioFromString(D.program_text(P), mode2D=True)
+        try:
+            _COMPILED[name] = scenic.scenarioFromString(D.program_text(P), mode2D=True)
+        except Exception as e:  # a program of the fragment that does not compile is a violation, reported by the harness
+            _COMPILED[name] = ("compile-failure", type(e).__name__ + ": " + str(e)[:200])
     return _COMPILED[name]
 
 
 def harness_for(name, P, horizon, raise_guards):
     def h(ctx):
+        import scenic.core.dynamics.behaviors as B
         from scenic.core.dynamics.guards import GuardViolation
 
         D.reset(ctx, P["values"])
         scenario = compiled(name, P)
+        if isinstance(scenario, tuple):
+            ctx.check("program-of-the-fragment-compiles", False, error=scenario[1])
+            return
         scene, _ = scenario.generate(maxIterations=1, verbosity=0)
+        started = []
+        orig_start = B.Behavior._start
+
+        def recording_start(self, agent):
+            started.append(self)
+            return orig_start(self, agent)
+
+        B.Behavior._start = recording_start
         try:
             sim = D.simulator(None).simulate(scene, maxSteps=horizon, maxIterations=1, verbosity=0,
                                              raiseGuardViolations=raise_guards)
             outcome = "accepted" if sim is not None else "rejected"
         except GuardViolation:
             sim, outcome = None, "guard-violation"
+        except (AssertionError, InvalidScenarioErrorT()) as e:
+            sim, outcome = None, "error:" + type(e).__name__
+        finally:
+            B.Behavior._start = orig_start
         real_log = [e for e in D.LOG]
         ref = D.Ref(P, horizon, 1, None)
         try:
@@ -111,8 +151,19 @@ def harness_for(name, P, horizon, raise_guards):
             first = next((i for i, (a, b) in enumerate(zip(acts_real, acts_ref)) if a != b), min(len(acts_real), len(acts_ref)))
             ctx.check("action-sequence-equals-reference-interpreter", acts_real == acts_ref, first_difference_at=first,
                       real=acts_real[max(0, first - 2): first + 2], expected=acts_ref[max(0, first - 2): first + 2])
+        import gc
+
+        gc.collect()  # suspended generator chains are closed (and their sub-behaviours stopped) on collection
+        left = sorted({type(b).__name__ for b in started if b._isRunning or b._agent is not None})
+        ctx.check("every-behaviour-started-is-stopped-when-the-simulation-is-over", not left, still_running=left)
 
     return h
+
+
+def InvalidScenarioErrorT():
+    from scenic.core.errors import InvalidScenarioError
+
+    return InvalidScenarioError
 
 
 def warm(name, P):
@@ -127,6 +178,8 @@ def warm(name, P):
                 return 2
 
         sc = compiled(name, P)
+        if isinstance(sc, tuple):
+            return
         for _ in range(2):
             D.reset(C(), P["values"])
             try:
